@@ -662,17 +662,32 @@ class SimulatedBroker(Broker):
                 "broker datetime (%s). Cannot update the "
                 "broker." % (dt, self.current_dt)
             )
-        self.current_dt = dt
 
-        # Update portfolio asset values
+        # Obtain the latest mid price of every held asset and refuse
+        # a non-positive one before the broker clock or any position
+        # is modified, so that a refused update changes nothing
+        mid_prices = []
         for portfolio in self.portfolios:
             for asset in self.portfolios[portfolio].pos_handler.positions:
                 mid_price = self.data_handler.get_asset_latest_mid_price(
                     dt, asset
                 )
-                self.portfolios[portfolio].update_market_value_of_asset(
-                    asset, mid_price, self.current_dt
-                )
+                if mid_price <= 0.0:
+                    raise ValueError(
+                        'Current mid price of %s is not positive for '
+                        'asset %s. Cannot update the broker.' % (
+                            mid_price, asset
+                        )
+                    )
+                mid_prices.append((portfolio, asset, mid_price))
+
+        self.current_dt = dt
+
+        # Update portfolio asset values
+        for portfolio, asset, mid_price in mid_prices:
+            self.portfolios[portfolio].update_market_value_of_asset(
+                asset, mid_price, self.current_dt
+            )
 
         # Try to execute orders
         if self.exchange.is_open_at_datetime(self.current_dt):
